@@ -1,12 +1,59 @@
 """C08 — moments, location summaries, entropy and KL agree with the density."""
 from props import _generic
-LEAN_DEPS = ['RvModel.Spec.C08', 'RvModel.Lemmas.C08', 'RvModel.Hand.DispatchAll']
+LEAN_DEPS = ['RvModel.Spec.C08', 'RvModel.Lemmas.C08', 'RvModel.Hand.C08Extra', 'RvModel.Hand.DispatchAll']
 TRUSTED = ['Spec/C08.lean: textbook closed forms of every summary (excess kurtosis, entropy in nats), cross-checked by '
            'independent quadrature of the object\'s own pdf during construction']
 ASSUMPTIONS = ['closed form = functional of the pdf is textbook knowledge except where Props/C08C proves it (cdf(median)=1/2, KL)']
 N_GEN = {'quick': 8, 'thorough': 100}
 _generic.install(globals(), 'C08', methods=('mean', 'variance', 'skewness', 'kurtosis', 'median', 'mode', 'entropy', 'kl', 'kl_sym'),
                  n_spec=(25, 400))
+
+
+def extra_run(man, tier, seed):
+    """Poisson::entropy (hand model Hand/C08Extra.lean: enumeration below rate 200, asymptotic series above) against the model,
+    and against the statement itself: entropy = -sum f ln f over the object's own pmf (enumerated with the generated ln_f)."""
+    import random, math
+    from checklib.core import enc, run_pair, tok_to_float, cmp_tokens
+    rng = random.Random(seed * 53 + 8)
+    n = 10 if tier == 'quick' else 200
+    rates = [0.1, 1.0, 3.4, 50.0, 131.4, 199.5, 199.999, 200.0, 200.5, 250.0, 1000.0, 5000.0, 1e5]
+    rates += [math.exp(rng.uniform(math.log(0.05), math.log(3000.0))) for _ in range(n)]
+    lines = [f'hand.Poisson.entropy - {enc(r)}' for r in rates]
+    impl, model = run_pair(lines)
+    obligations, failures = [], []
+    bad = []
+    for l, a, b in zip(lines, impl, model):
+        if b == 'NOOP' or a == 'NOOP':
+            continue
+        ok, detail = cmp_tokens(a, b, 1e-10, 1e-12)
+        if not ok:
+            bad.append({'line': l, 'impl': a, 'model': b})
+    obligations.append({'name': 'corr:Poisson.entropy(hand model)', 'kind': 'corr', 'ok': not bad, 'site': 'Poisson.entropy',
+                        'detail': (bad[0]['line'] + ' impl=' + bad[0]['impl'] + ' model=' + bad[0]['model']) if bad else '', 'cases': bad[:3]})
+    # the statement: entropy = -E[ln f] with the object's own pmf
+    qs, spans = [], []
+    for r in rates:
+        if r > 2e4:
+            spans.append(None)
+            continue
+        sd = math.sqrt(r)
+        lo, hi = max(0, int(r - 12 * sd - 40)), int(r + 12 * sd + 60)
+        spans.append((len(qs), lo, hi))
+        qs += [f'Poisson.ln_f_nat u32 {enc(r)} {k}' for k in range(lo, hi + 1)]
+    vals, _ = run_pair(qs, want_model=False)
+    for r, l, a, sp in zip(rates, lines, impl, spans):
+        if sp is None or a in ('NOOP',):
+            continue
+        b0, lo, hi = sp
+        lf = [tok_to_float(t) for t in vals[b0:b0 + hi - lo + 1]]
+        h = -math.fsum(math.exp(v) * v for v in lf if v > -745.0)
+        got = tok_to_float(a) if a.startswith('x') else float('nan')
+        # the series drops terms of order 1/rate^4 (3e-10 at rate 200); enumeration stops at f < 1e-16
+        if not (abs(got - h) <= 1e-8 * max(1.0, abs(h))):
+            failures.append({'site': 'Poisson.entropy', 'case': l, 'impl': repr(got), 'expected': f'-sum f ln f = {h!r}',
+                             'observed': 'value' if got == got else 'nan', 'detail': 'entropy vs enumeration of the own pmf'})
+    return {'obligations': obligations, 'failures': failures,
+            'stats': {'evaluations': len(lines) + len(qs), 'distinct_nontrivial': len(set(lines)) + len(set(qs))}, 'samples': lines[:2]}
 
 
 def _toks(f):
